@@ -433,6 +433,9 @@ pub fn generate(ctx: &mut GenCtx) {
         // '/' inside the base's query is no path-segment boundary
         ("http://a/b/c/d?g=/x", "http://a/b/c/e"),
         ("http://a/b/c/d?default-graph-uri=http://example.org/g", "http://a/b/x"),
+        // witnesses of the `rel_input_needs_*` theorems not listed above
+        ("http://a/b/c/d", "http://a/x"),
+        ("http://a/b?q", "http://a/b"),
         // bases deeper than every small limit
         ("http://a/1/2/3/4/5/6/7/8/9", "http://a/1/x"),
         ("http://a/1/2/3/4/5/6/7/8/9", "http://a/x"),
